@@ -1,6 +1,7 @@
 // C14 - safe integer comparisons, in_range and saturate_cast over signed/unsigned type pairs vs std <utility> / __int128
 // (DESIGN section 4, C14).  Public tetl API only.
 //   -DC14_ROWS=0..3 : first parameter type in {int8,int16} / {int32,int64} / {uint8,uint16} / {uint32,uint64}   (split for parallel compiles)
+//   -DC14_ROWS=9 : bulk sweep (thorough tier, plain flavour): every pair of 16-bit values for the six comparisons
 #include "vf.hpp"
 #include "vf_contract.hpp"
 
@@ -128,6 +129,20 @@ void c14::register_all()
     reg_pair<long long, unsigned long long>();
     reg_pair<long long, unsigned>();
     reg_pair<long long, long>();
+#elif C14_ROWS == 9
+    max_block() = 1u << 22;
+    auto bulk = []<class T, class U>(T, U) {
+        reg_binary<AllY<CmpEqual<T, U>>>(false, 3, "all-pairs-16bit");
+        reg_binary<AllY<CmpNotEqual<T, U>>>(false, 3, "all-pairs-16bit");
+        reg_binary<AllY<CmpLess<T, U>>>(false, 3, "all-pairs-16bit");
+        reg_binary<AllY<CmpGreater<T, U>>>(false, 3, "all-pairs-16bit");
+        reg_binary<AllY<CmpLessEqual<T, U>>>(false, 3, "all-pairs-16bit");
+        reg_binary<AllY<CmpGreaterEqual<T, U>>>(false, 3, "all-pairs-16bit");
+    };
+    bulk(short{}, short{});
+    bulk(short{}, static_cast<unsigned short>(0));
+    bulk(static_cast<unsigned short>(0), short{});
+    bulk(static_cast<unsigned short>(0), static_cast<unsigned short>(0));
 #elif C14_ROWS == 1
     reg_row<int>();
     reg_row<long>();
